@@ -376,3 +376,31 @@ func Go5[A, B, C, D, E any](f func(A, B, C, D, E), a A, b B, c C, d D, e E) {
 func Go6[A, B, C, D, E, F any](f func(A, B, C, D, E, F), a A, b B, c C, d D, e E, g F) {
 	spawn(func() { f(a, b, c, d, e, g) })
 }
+
+// FakeProcs / FakeCPUs, when non-zero, are what the library is told by runtime.GOMAXPROCS(0) and
+// runtime.NumCPU() (the overlay redirects those two calls here).
+var FakeProcs, FakeCPUs int
+
+//go:norace
+//go:noinline
+func fakes() (int, int) { return FakeProcs, FakeCPUs }
+
+// SetFakeProcs sets both (0: tell the truth).
+//
+//go:norace
+//go:noinline
+func SetFakeProcs(procs, cpus int) { FakeProcs, FakeCPUs = procs, cpus }
+
+func GOMAXPROCS(n int) int {
+	if p, _ := fakes(); p > 0 && n <= 0 {
+		return p
+	}
+	return runtime.GOMAXPROCS(n)
+}
+
+func NumCPU() int {
+	if _, c := fakes(); c > 0 {
+		return c
+	}
+	return runtime.NumCPU()
+}
